@@ -66,7 +66,19 @@ def main():
     ap.add_argument('--seed', type=int, default=0)
     ap.add_argument('--demo', action='store_true')
     ap.add_argument('--readme', action='store_true')
+    ap.add_argument('--results-out', help='also write this run\'s results '
+                    'as JSON (for runs made in parallel)')
+    ap.add_argument('--merge-results', nargs='*', help='no run: merge these '
+                    'JSON result files into seeded/results.json and '
+                    'regenerate the README')
     args = ap.parse_args()
+    if args.merge_results is not None:
+        results = {}
+        for f in args.merge_results:
+            with open(f) as fh:
+                results.update(json.load(fh))
+        args.readme = True
+        return finish_readme(results, args, 0)
     dirs = sorted(d for d in glob.glob(os.path.join(HERE, 'seeded', '*'))
                   if os.path.isdir(d) and os.path.basename(d) != 'retired'
                   and (not args.ids or
@@ -80,6 +92,13 @@ def main():
         print('%-28s %s %-8s %5.1fs %s' % (r[0], r[1], r[2], r[4], r[3]))
         sys.stdout.flush()
     print('%d seeded changes, %d not caught' % (len(dirs), missed))
+    if args.results_out:
+        with open(args.results_out, 'w') as fh:
+            json.dump(results, fh, indent=1, sort_keys=True)
+    return finish_readme(results, args, missed)
+
+
+def finish_readme(results, args, missed):
     if args.readme:
         # results of earlier runs are kept (seeded/results.json) and updated
         # by this one, so that a run over some of the changes refreshes their
